@@ -626,6 +626,8 @@ func (m *Memberlist) gossip() {
 	if m.config.EncryptionEnabled() {
 		bytesAvail -= encryptOverhead(m.encryptionVersion())
 	}
+	// rawSendMsgPacket may prepend a checksum header for the recipient.
+	bytesAvail -= crcHeaderOverhead
 
 	for _, node := range kNodes {
 		// Get any pending broadcasts
